@@ -19,8 +19,9 @@ FIELDS = {
 }
 FIXED_LENGTH = {"id": "5", "name": "10", "kind": "1", "born": "10", "amount": "5", "code": "3", "tag": "2", "const": "1", "country": "2", "codes": "5"}
 PROPERTIES = {
-    "delimited": [["Header", "1"], ["Encoding", "utf-8"], ["Item delimiter", ";"], ["Line delimiter", "LF"], ["Quote character", "'"], ["Decimal separator", ","], ["Thousands separator", "."]],
-    "fixed": [["Header", "1"], ["Encoding", "utf-8"], ["Line delimiter", "LF"], ["Decimal separator", ","]],
+    # allowed characters: blank up to Z and a up to ~ written with quoted limits (values keep their case; every example fits)
+    "delimited": [["Header", "1"], ["Encoding", "UTF-8"], ["Allowed characters", '" "..."Z", "a"..."~", 9'], ["Item delimiter", ";"], ["Line delimiter", "LF"], ["Quote character", "'"], ["Decimal separator", ","], ["Thousands separator", "."]],
+    "fixed": [["Header", "1"], ["Encoding", "utf-8"], ["Allowed characters", '" "..."Z", "a"..."~"'], ["Line delimiter", "LF"], ["Decimal separator", ","]],
     "excel": [["Header", "2"], ["Sheet", "2"], ["Encoding", "utf-8"]],
     "ods": [["Header", "1"], ["Sheet", "3"]],
 }
